@@ -90,7 +90,7 @@ func callSite() string {
 		if strings.HasPrefix(fr.Function, "github.com/uber-go/gopatch") {
 			fn := strings.TrimPrefix(fr.Function, "github.com/uber-go/gopatch")
 			fn = strings.TrimLeft(fn, "/.")
-			if i := strings.Index(fn, ".func"); i > 0 {
+			if i := strings.Index(fn, ".func"); i > 0 && i+5 < len(fn) && fn[i+5] >= '0' && fn[i+5] <= '9' {
 				fn = fn[:i]
 			}
 			return fn
